@@ -90,7 +90,7 @@ def do(r, cfg, name):
     if k == 'read_setting':
         return r.call(inv.read_setting, arg)
     if k == 'read_sensor':
-        return r.call(inv.read_sensor, inv.sensors()[1].id_ if arg == 'first' else arg)
+        return r.call(inv.read_sensor, world.listed(inv)[1].id_ if arg == 'first' else arg)
     if k == 'set_export':
         return r.call(inv.set_grid_export_limit, int(arg))
     if k == 'set_dod':
@@ -158,7 +158,7 @@ def state_of(r):
     from .explore import obj_state
     return h((obj_state(inv, r.loop.time()), obj_state(inv._protocol, r.loop.time()) if hasattr(inv, '_protocol') else None,
               tuple(sorted((k, v) for k, v in vars(inv).items() if k.startswith('_has'))), tuple(sorted(inv._settings)),
-              len(inv.sensors()), tuple(sens), regs, blob, tuple(getattr(dev, 'refused', ())),
+              len(world.listed(inv)), tuple(sens), regs, blob, tuple(getattr(dev, 'refused', ())),
               getattr(inv._protocol, '_retry', 0), inv._consecutive_failures_count,
               tuple(sorted(getattr(dev, 'drop_at', ())) and [1]),
               tuple(sorted((k - len(dev.log), v) for k, v in getattr(dev, 'reject_at', {}).items())),
@@ -189,7 +189,11 @@ def probes(r, cfg):
         out.append(('C15', 'runtime-read-succeeds-by-second-call', str(res)[:80]))
         return out
     data = res[1]
-    ids = [s.id_ for s in inv.sensors()]
+    if world.listed(inv).error:
+        out.append(('C15', 'sensors()-works', world.listed(inv).error))
+        out.append(('C16', 'sensors()-works', world.listed(inv).error))
+        return out
+    ids = [s.id_ for s in world.listed(inv)]
     if set(data) != set(ids):
         out.append(('C15', 'keys==sensors()', f'only in result {sorted(set(data) - set(ids))[:3]}, only in sensors() {sorted(set(ids) - set(data))[:3]}'))
     # C16 (+C18): single reads of a few ids: colliding ids, first/last, battery / meter representatives
@@ -197,7 +201,7 @@ def probes(r, cfg):
         both = sorted(set(ids) & set(inv._settings))
         cand = list(dict.fromkeys(both + ids[1:3] + ids[-2:] + [x for x in ids if x in ('battery_soc', 'meter_e_total_exp', 'vpv1', 'e_day', 'meter_current1')]))
         for sid in cand:
-            s = [x for x in inv.sensors() if x.id_ == sid][-1]
+            s = [x for x in world.listed(inv) if x.id_ == sid][-1]
             if type(s).__name__ in ('Calculated', 'EnumCalculated', 'EnumBitmap22') or sid in ('apparent_power2', 'apparent_power3'):
                 continue
             l0 = len(dev.log)
